@@ -174,6 +174,9 @@ func VsAssert(label string, c bool) {
 	}
 }
 
+// VsLemma states a fact that another harness of the same check proves; natively it is checked.
+func VsLemma(label string, c bool) { VsAssert("lemma:"+label, c) }
+
 func VsReach(label string)     { res.Reached = append(res.Reached, label) }
 func VsAnd(a, b bool) bool     { return a && b }
 func VsOr(a, b bool) bool      { return a || b }
